@@ -244,11 +244,22 @@ func crashPost(id, tier, logPath string) int {
 		if strings.HasPrefix(fn, "panic") || strings.HasPrefix(fn, "runtime") || strings.HasPrefix(fn, "created by") {
 			continue
 		}
+		// frames of the consensus library that coreutils called into are looked
+		// through: the crash belongs to whoever called them
+		if strings.HasPrefix(fn, "go.sia.tech/core/") || strings.HasPrefix(fn, "golang.org/") || strings.HasPrefix(fn, "lukechampine.com/") || !strings.Contains(fn, ".") {
+			if first == "" {
+				first = fn
+			}
+			continue
+		}
 		first = fn
 		break
 	}
 	what := strings.TrimSpace(lines[start])
-	if crashDeciding[id] && !isHarnessFrame(first) && first != "" {
+	// decisive only when the innermost frame that is neither runtime nor a
+	// third-party library belongs to the repository under test (a panic in the
+	// harness or in a check's own code is never a verdict)
+	if crashDeciding[id] && isRepoFrame(first) {
 		dir := filepath.Join(mon.VerifDir, "replays")
 		os.MkdirAll(dir, 0o755)
 		path := filepath.Join(dir, fmt.Sprintf("%s-crash-%s.log", id, os.Getenv("VERIF_SEED")))
